@@ -131,7 +131,14 @@ TQuiet ==
   /\ UNCHANGED <<vars, dev, why, prev, lin>>
   /\ l' = l + 1
 
-Matched == TIn \/ TOut \/ TSnap \/ TExit \/ TEnd \/ TQuiet
+\* ---- (real-process traces) the server has not reported the end of this transfer ----
+TAlive ==
+  /\ l <= N /\ ~dev /\ E.e = "alive"
+  /\ pc \in {"check", "run"} /\ out = None
+  /\ UNCHANGED <<vars, dev, why, prev, lin>>
+  /\ l' = l + 1
+
+Matched == TIn \/ TOut \/ TSnap \/ TExit \/ TEnd \/ TQuiet \/ TAlive
 
 -----------------------------------------------------------------------------
 (* Classification of a deviation: which listed property does the first      *)
@@ -164,7 +171,7 @@ SenderLabel ==
                    ELSE IF E.k = "data" /\ E.n = Wire(out.next) THEN "C01:WrongContent"
                    ELSE IF why = "ack" THEN "C08,C01:WrongBlock"
                    ELSE "C01:WrongBlock"
-    [] E.e \in {"snap", "in", "end", "quiet"} ->
+    [] E.e \in {"snap", "in", "end", "quiet", "alive"} ->
          IF out # None
          THEN IF out.k = "err" THEN "C07:MissingErrorReply"
               ELSE IF out.c > 0 THEN "C16:MissingCopy"
@@ -193,7 +200,7 @@ ReceiverLabel ==
                    ELSE IF E.k # "ack" THEN "C02:WrongKind"
                    ELSE IF E.n # out.n THEN (IF why = "ooseq" THEN "C02,C04:ReAckNumber" ELSE "C02:AckNumber")
                    ELSE "C02:AckNotStored"
-    [] E.e \in {"snap", "in", "end", "quiet"} ->
+    [] E.e \in {"snap", "in", "end", "quiet", "alive"} ->
          IF out # None
          THEN IF out.c > 0 THEN "C16:MissingCopy"
               ELSE IF why = "ooseq" THEN "C04:MissingReAck" ELSE "C08,C02:MissingAck"
@@ -214,8 +221,12 @@ ReceiverLabel ==
 \* In a window at or beyond the block-number wrap every divergence also breaks C15 ("transfers
 \* beyond 65535 blocks stay correct"); in duplicate-packets mode every divergence also breaks
 \* C16 ("... stays correct").
+\* A DATA datagram whose number is not the number of the slice it carries breaks C01 whatever
+\* else is wrong with it.
+Misnumbered == Sending /\ E.e = "out" /\ E.k = "data" /\ (E.i = 0 \/ E.n # Wire(E.i))
 Label == (IF Sending THEN SenderLabel ELSE ReceiverLabel)
          \o (IF NearWrap THEN "+C15" ELSE "") \o (IF p.R > 1 THEN "+C16" ELSE "")
+         \o (IF Misnumbered THEN "+C01" ELSE "")
 
 Deviate ==
   /\ l <= N /\ ~dev /\ E.e # "cfg"
